@@ -336,6 +336,11 @@ class Check:
             with open(path, "w") as f:
                 json.dump(replay, f, indent=1, ensure_ascii=False)
             vio_lines.append(f"VIOLATION property={self.pid} replay={path}" + (" no-failing-input-found" if no_input else ""))
+            why = summary
+            for key in ("what", "problems", "traceback", "theorem_or_suite", "log_tail"):
+                if key in replay:
+                    why += f" | {key}: " + str(replay[key])[-600:].replace("\n", " // ")
+            vio_lines.append("  why: " + why[:1500])
         ev = {
             "property_id": self.pid,
             "tier": self.tier,
